@@ -329,14 +329,20 @@ class C08(Prop):
             "non-trivial = a tebd case with a two-site gate or a split case with at least two gates")
     clauses = [
         ("F", "exponentiate_splitting = concatenation over the steps of swaps_before ++ [exp] ++ swaps_after; identifiers of every gate in "
-              "TensorProduct key order, factors in step order, axes (outputs then inputs) in identifier order; from_lists defaults (C08_exponents_*, C08_from_lists_*)"),
-        ("F", "swap_gate: entry ((a,b),(c,e)) = [a=e and b=c] for every dimension; the matrix is the involutive permutation sigma; SWAP psi[a,b] = psi[b,a]; SWAP.SWAP = 1 (C08_swap_*)"),
-        ("F", "legs_before_combination: the two leg specifications partition the legs of the contracted node and name the pair's other neighbours and open legs; "
-              "split_nodes gives the two nodes exactly the parent / children the specifications name, so parent and children (as sets) of both nodes are restored, "
-              "for either orientation (C08_lbc_*, C08_split_*, C08_two_site_restores)"),
-        ("I", "per explored instance: structure_kept evaluated by vm_compute on the model state after the whole step (model tied exactly to the code after every sub-operation)"),
-        ("O", "expm and the SVD kernel are opaque atoms of the diagram; gate values are validated against an independent exponential, SVD factors against the dense oracle"),
-        ("V", "new state vector = ordered product of dense unitaries applied to the old one; bond dimensions within [1, max_bond_dim] under truncation: dense numpy oracle"),
+              "TensorProduct key order (not the `order` argument), factors in step order, axes (outputs then inputs) in identifier order; "
+              "from_lists defaults and index rule (C08_exponents_order, C08_gate_axes_layout, C08_into_operator_*, C08_from_lists_*)"),
+        ("F", "swap_gate, every dimension: entry ((a,b),(c,e)) = [a=e and b=c]; the loop-built matrix is the involutive permutation sigma; "
+              "SWAP psi[a,b] = psi[b,a]; SWAP.SWAP = 1 (C08_swap_*)"),
+        ("F", "two-site gate, either orientation: the leg specifications recorded by legs_before_combination partition the legs of the node contract_nodes "
+              "stores; absorb attaches the gate's inputs to the open wires in order and leaves the outputs in place; split_nodes gives both nodes back "
+              "under their identifiers with their parent and children (as sets), root unchanged; one step = ordered composition of its gates "
+              "(C08_lbc_names, C08_contract_specs_partition, C08_absorb_open_spec, C08_split_nodes_structure, C08_split_nodes_neighbours, C08_two_site_gate_restores, C08_tebd_step_*)"),
+        ("F", "truncation: with max_bond_dim = m the new bond has between 1 and m values (C08_bond_bounded, from the C10 model of truncate_singular_values)"),
+        ("I", "per explored instance (vm_compute on the model state, model tied exactly to the code after every sub-operation): pair_okb — the hypotheses of "
+              "C08_two_site_gate_restores, proved sound — before every two-site gate, and structure_kept (every node keeps parent and child set, root kept) after the step"),
+        ("O", "expm and the SVD kernel are opaque atoms of the diagram; gate values are validated against an independent exponential, SVD factors through the dense oracle"),
+        ("V", "new state vector = ordered product of dense unitaries applied to the old one (run_one_time_step on its own instance); bond dimensions within "
+              "[1, max_bond_dim] under truncation; caller's state untouched: dense numpy oracle"),
     ]
     trusted_base = ["scipy.linalg.expm (validated against an independent series / eigendecomposition exponential, tolerance 1e-9 relative)",
                     "LAPACK SVD: U S Vh contracts back to the input when nothing is truncated (validated through the dense oracle)",
@@ -353,8 +359,8 @@ class C08(Prop):
         if stream == "main":
             for d in range(0, 7):
                 cases.append({"kind": "swapmat", "d": d})
-        nsplit = ctx.scale(50, 600) * budget_scale
-        ntebd = ctx.scale(60, 900) * budget_scale
+        nsplit = ctx.scale(50, 400) * budget_scale
+        ntebd = ctx.scale(60, 600) * budget_scale
         for j in range(nsplit):
             cases.append({"kind": "split", "seed": rng.randrange(10 ** 9), "malformed": j % 6 == 5})
         for j in range(ntebd):
